@@ -1,6 +1,8 @@
 import LanceModel.C13.AddrLemmas
 import LanceModel.C13.TableLemmas
 import LanceModel.C13.PlanLemmas
+import LanceModel.C13.IndexLemmas
+import LanceModel.C13.EndToEnd
 /-
 C13 — Compaction and other rewrites never change table contents.
 
@@ -113,28 +115,6 @@ theorem rewrite_rows (final : List Frag) (gs : List Group) (next : Nat) (h : Com
 
 /-! ### `CommitOk` is closed under taking any subset of the groups in any order -/
 
-theorem flatMap_sublist {α β : Type} (f : α → List β) : ∀ {a b : List α}, a.Sublist b → (a.flatMap f).Sublist (b.flatMap f)
-  | _, _, .slnil => List.Sublist.refl _
-  | _, _, .cons x h => by
-    simp only [List.flatMap_cons]
-    exact (flatMap_sublist f h).trans (List.sublist_append_right _ _)
-  | _, _, .cons₂ x h => by
-    simp only [List.flatMap_cons]
-    exact List.Sublist.append (List.Sublist.refl _) (flatMap_sublist f h)
-
-theorem commitOk_subset (final : List Frag) (gs gs₀ gs' : List Group) (h : CommitOk final gs)
-    (hsub : gs₀.Sublist gs) (hperm : gs'.Perm gs₀) : CommitOk final gs' := by
-  have hmem : ∀ g ∈ gs', g ∈ gs := fun g hg => hsub.subset (hperm.subset hg)
-  refine ⟨h.nodup, fun g hg => h.nonempty g (hmem g hg), fun g hg => h.sub g (hmem g hg), ?_,
-    fun g hg => h.rows g (hmem g hg), fun g hg => h.newNonzero g (hmem g hg),
-    fun g hg => h.newFresh g (hmem g hg), ?_⟩
-  · have h0 := h.disjoint.sublist hsub
-    refine (hperm.pairwise_iff ?_).mpr h0
-    intro a b hab o ho p hp heq
-    exact hab p hp o ho heq.symm
-  · have h0 := ((flatMap_sublist Group.news hsub).map Frag.id).nodup h.newNodup
-    exact ((hperm.flatMap_right Group.news).map Frag.id).nodup_iff.mpr h0
-
 /-- **subset_commit**: if the results of a plan's tasks form a valid commit, then committing ANY subset of them in
     ANY order is a valid commit too: it succeeds, keeps every visible row (with id and versions), keeps fragment ids
     unique.  (Committing the rest afterwards is again an instance: `CommitOk` on the new manifest.) -/
@@ -188,15 +168,8 @@ theorem C13_ordered_counterexample : ¬ C13_ordered := by
     the manifest in manifest order (for every option set and every index coverage). -/
 theorem plan_disjoint (o : Opts) (ixs : List (List Nat)) (fs : List Frag) (hn : (fs.map Frag.id).Nodup) :
     (plan o ixs fs).Pairwise (fun a b => ∀ x ∈ a, ∀ y ∈ b, x.id ≠ y.id)
-    ∧ ∀ t ∈ plan o ixs fs, t.Sublist fs := by
-  have hs := plan_flatten_sublist o ixs fs
-  have hnd : (plan o ixs fs).flatten.Nodup := hs.nodup (nodup_of_map Frag.id fs hn)
-  refine ⟨?_, fun t ht => (sublist_of_mem_flatten_prefix _ t ht).trans hs⟩
-  refine (pairwise_disjoint_of_nodup_flatten _ hnd).imp_of_mem ?_
-  intro a b ha hb hab x hx y hy hid
-  have hxm : x ∈ fs := hs.subset (List.mem_flatten.mpr ⟨a, ha, hx⟩)
-  have hym : y ∈ fs := hs.subset (List.mem_flatten.mpr ⟨b, hb, hy⟩)
-  exact hab x hx y hy (eq_of_id_eq fs hn x y hxm hym hid)
+    ∧ ∀ t ∈ plan o ixs fs, t.Sublist fs :=
+  plan_tasks_disjoint o ixs fs hn
 
 private def small (id : Nat) (k : Int) : Frag := ⟨id, [r k false 0]⟩
 example : (plan ⟨2, true, 1, 10, false⟩ [[0, 1]] [small 0 1, small 1 2, small 2 3, small 3 4, small 4 5]).map (·.map Frag.id)
@@ -220,5 +193,78 @@ theorem bitmap_recalc_removes (old : List Nat) (gs : List (List Nat × List Nat)
 
 example : recalcBitmap [0, 1, 2] [([0, 1], [5]), ([3, 4], [6])] [0, 1, 2] = .ok [2, 5] := by rfl
 example : recalcBitmap [0, 1, 2] [([2, 3], [5])] [0, 1, 2] = .error .invalid := by rfl
+
+/-! ## end to end: what `compact` (the function the driver runs against the real code) does
+
+`plan_nonempty`, `selTasks_commitOk` (plan tasks + ids reserved above max_fragment_id ⇒ `CommitOk`),
+`commit_preserves_nonstable` / `commit_preserves_stable` (one `commit_compaction` of any subset of the executed tasks
+in any order), `execOrder_nodup`, `batches_subperm`, `compact_preserves`, `compact_files_preserves` are proved in
+AssembleLemmas / ExecLemmas / EndToEnd and registered as property theorems. -/
+
+/-- **plan_commit_ok**: the pieces assembled — tasks of `plan`, any duplicate-free subset in any order, rewritten by
+    `rewriteTask` with the ids `reserve_fragment_ids` hands out (consecutive, above max_fragment_id), satisfy
+    `CommitOk`; hence `rewrite_rows`, `subset_commit`, `remap_total` (each group: `visible news = visible olds`) and
+    `bitmap_recalc` apply to them. -/
+theorem plan_commit_ok (o : Opts) (ixs : List (List Nat)) (fs : List Frag) (ht : 0 < o.target)
+    (hn : (fs.map Frag.id).Nodup) (mf : Nat) (hmf : ∀ f ∈ fs, f.id ≤ mf)
+    (ts : List (List Frag)) (hts : ∀ t ∈ ts, t ∈ plan o ixs fs) (hdist : ts.Pairwise (· ≠ ·)) :
+    CommitOk fs (mkGroups o.target (selTasks o ts mf)) :=
+  selTasks_commitOk o ixs fs ht hn mf hmf ts hts hdist
+
+private def exT : Table :=
+  { version := 3, frags := [small 0 1, small 1 2, small 2 3], maxFrag := 2, stable := true, nextRowId := 3,
+    idx := some [0, 1, 2], fri := [], friBitmap := none }
+
+-- non-vacuity: a stable-row-id table, deferred remap, compact_files: three 1-row fragments become 3:2 rows, 4:1 row
+example : TableWF exT := ⟨by decide, by decide⟩
+example : (match compact ⟨2, true, 0, 1, true⟩ exT [] [] with
+    | .ok out => out.table.frags.map (fun f => (f.id, f.rows.length)) | .error _ => []) = [(3, 2), (4, 1)] := by rfl
+
+/-! ## the load_indices view and the deferred row address remap -/
+
+/-- **bitmap_remap_sound** (`FragReuseIndex::remap_fragment_bitmap`, the bitmaps `load_indices` shows): if the index
+    has seen every row of every fragment in its stored bitmap, and the new fragments of a rewrite group hold only rows
+    of its old fragments (`rewrite_rows_task`), then the index has seen every row of every fragment in the remapped
+    bitmap — it never claims a fragment containing rows it did not see.  A partly covered group is an error. -/
+theorem bitmap_remap_sound (Seen : Nat → Prop) (vs : List (List (List Nat × List Nat))) (stored res : List Nat)
+    (h : remapBitmap vs stored = .ok res) (hstored : ∀ x ∈ stored, Seen x)
+    (hgroups : ∀ v ∈ vs, ∀ g ∈ v, (∀ o ∈ g.1, Seen o) → ∀ n ∈ g.2, Seen n) : ∀ x ∈ res, Seen x :=
+  remapBitmap_seen Seen vs stored res h hstored hgroups
+
+/-- the same invariant for `recalculate_fragment_bitmap` -/
+theorem bitmap_recalc_seen (Seen : Nat → Prop) (old : List Nat) (gs : List (List Nat × List Nat)) (res : List Nat)
+    (h : recalcBitmap old gs old = .ok res) (hold : ∀ x ∈ old, Seen x)
+    (hgroups : ∀ g ∈ gs, (∀ o ∈ g.1, Seen o) → ∀ n ∈ g.2, Seen n) : ∀ x ∈ res, Seen x :=
+  recalcBitmap_seen Seen old hold gs old res h hold hgroups
+
+example : remapBitmap [[([0, 1], [5])], [([5, 2], [7, 8])]] [0, 1, 2, 3] = .ok [3, 7, 8] := by rfl
+example : remapBitmap [[([0, 1], [5])]] [0, 2] = .error .panic := by rfl
+
+/-- **remap_row_id_compose** (`FragReuseIndex::remap_row_id`): threading an address through the maps of several
+    deferred compactions is the composition of the per-compaction remaps -/
+theorem remap_row_id_compose (ms₁ ms₂ : List AddrMap) (a : Nat) :
+    remapRowId (ms₁ ++ ms₂) a = (remapRowId ms₁ a).bind (remapRowId ms₂) :=
+  remapRowId_append ms₁ ms₂ a
+
+/-- **remap_row_id_chain**: over any number of deferred compactions, each of which carries every live row from its
+    old address to an address holding the same row (`StepOk`, what `remap_total` gives per compaction), the address
+    an index entry was written with is translated to an address that holds the same row in the latest version -/
+theorem remap_row_id_chain (steps : List (AddrMap × List Frag)) (T : List Frag) (h : ChainOk T steps)
+    (a : Nat) (row : PRow) (hr : rowAt T a = some row) (hd : row.del = false) :
+    ∃ b, remapRowId (steps.map (·.1)) a = some b ∧ rowAt (lastTable T steps) b = some row :=
+  remap_chain_row steps T h a row hr hd
+
+/-- stopping after the first map (a seeded change the check caught) is a different function as soon as there are two
+    deferred compactions of the same rows -/
+theorem remap_first_only_counterexample :
+    ¬ (∀ (maps : List AddrMap) (a : Nat), remapRowIdFirstOnly maps a = remapRowId maps a) := by
+  intro h
+  have := h [[(0, some 5)], [(5, some 9)]] 0
+  revert this
+  decide
+
+example : remapRowId [[(0, some 5), (1, none)], [(5, some 9)]] 0 = some 9 := by decide
+example : remapRowId [[(0, some 5), (1, none)], [(5, some 9)]] 1 = none := by decide
+example : remapRowId [[(0, some 5), (1, none)], [(5, some 9)]] 7 = some 7 := by decide
 
 end LanceModel.C13
